@@ -384,8 +384,8 @@ func directedAbortFull(seed uint64, gt uint32, out *WorkerOut) {
 	case <-time.After(30 * time.Second):
 		fail("Close did not return within 30 s after an aborted snapshot")
 	}
-	vhook.Set(nil)
-	if k.Ch == nil {
+	if k.Ch == nil { // closed in time: every goroutine of the chain has finished (otherwise some may still be inside a hook)
+		vhook.Set(nil)
 		k.Close()
 	}
 	rp.Events = rc.events
